@@ -151,7 +151,11 @@ class Expect(object):
                 ci = fx.D['classes'].index(cl)
                 bc, ba = attr_base(fx.D, ci, a['name'])
                 self.attr_types[(cl['kl'], a['name'])] = ba['type'] if ba else None
-        self.param_types = dict((pn, {'int': 'integer', 'str': 'string', 'bool': 'boolean', 'real': 'real'}[pt]) for pn, pt in c.params)
+        from .c15_callables import UDT_OF
+        udt = getattr(c, 'udt', ())
+        # a parameter value carries the declared data type of the parameter (a user data type is not unwrapped)
+        self.param_types = dict((pn, UDT_OF[pt] if pn in udt else {'int': 'integer', 'str': 'string', 'bool': 'boolean', 'real': 'real'}[pt])
+                                for pn, pt in c.params)
 
     def span(self, n):
         return node_span(self.p, self.pos, n)
